@@ -23,9 +23,9 @@ N_ACC = 8
 
 def write_if_changed(path, text):
     os.makedirs(os.path.dirname(path), exist_ok=True)
-    if os.path.exists(path) and open(path).read() == text:
+    if os.path.exists(path) and open(path, encoding="utf-8").read() == text:
         return
-    with open(path, "w") as f:
+    with open(path, "w", encoding="utf-8") as f:
         f.write(text)
 
 
@@ -82,7 +82,7 @@ def module_src(name, decls, std, err, qualified, attr_path=False, dup_key=False)
     lines.append("#[allow(dead_code)]")
     lines.append("pub fn entry() -> mc::prog::Entry {")
     lines.append("    mc::prog::Entry { name: %s, decls: &[%s], std_cmds: %s, err_cmds: %s, root: || I::new().root_node(), exec }" % (
-        json.dumps(qualified), ", ".join(json.dumps(d) for d in decls), "true" if std else "false", "true" if err else "false"))
+        json.dumps(qualified), ", ".join(json.dumps(d, ensure_ascii=False) for d in decls), "true" if std else "false", "true" if err else "false"))
     lines.append("}")
     return "\n".join(lines) + "\n"
 
